@@ -364,7 +364,12 @@ def schedule_solo(rng, n):
         out.append("%s%d" % (rng.choice("cCubj"), k))
         pos += k
         while rng.chance(1, 2):
-            out.append(rng.choice("swtihpPDeGFtikKx"))
+            q = rng.choice("swtihpPDeGFtikKxIIL")
+            if q == "I":
+                q = "I%d" % rng.below(5)
+            elif q == "L":
+                q = rng.choice(["L%d" % rng.range(0, 40), "M%d" % rng.range(0, 30)])
+            out.append(q)
     out += ["t", "i", "E", "t", "i", "D"]
     return ",".join(out)
 
